@@ -269,4 +269,126 @@ def transformTfIdf {γ : Type} [DecidableEq γ] (m : Method) (F : Fitted γ) (do
 
 end TfIdf
 
+/-! ## from token lists: the compositions the driver answers through -/
+
+section Docs
+variable {ω γ : Type} [DecidableEq γ]
+
+/-- `CountVectorizerValidParams::fit` from the token lists of the documents: the entries of every
+document by `NGramList`, the absolute window from `x.len()` (`bounds` = the conversion of the relative
+bounds, `absBounds…`). -/
+def fitDocs [LT γ] [DecidableLT γ] (J : Joiner ω γ) (order : List (Entry γ) → List (Entry γ))
+    (nmin nmax : Nat) (bounds : Nat → Nat × Nat) (stop : Option (List γ)) (cap : Option Nat)
+    (docs : List (List ω)) : Fitted γ :=
+  let b := bounds docs.length
+  fit order (docs.map (docGrams J nmin nmax)) b.1 b.2 stop cap
+
+/-- `CountVectorizer::transform` from the token lists -/
+def transformDocs (J : Joiner ω γ) (nmin nmax : Nat) (F : Fitted γ) (docs : List (List ω)) : List (List Nat) :=
+  transform F (docs.map (docGrams J nmin nmax))
+
+/-- one iteration of the loop of `fit_files`: the file is read and decoded — `none` stands for a file
+the decoder refuses (`Err(EncodingError)`, the function returns at once) — and its entries go into the map -/
+def filesStep (J : Joiner ω γ) (nmin nmax : Nat) (st : Option (List (Entry γ))) (f : Option (List ω)) :
+    Option (List (Entry γ)) :=
+  match st, f with
+  | some voc, some ws => some (readDocument voc (docGrams J nmin nmax ws))
+  | _, _ => none
+
+/-- `fit_files` has its OWN loop (countgrams/mod.rs, not shared with `fit`); `documents_count =
+input.len()` feeds the filter. -/
+def fitFiles [LT γ] [DecidableLT γ] (J : Joiner ω γ) (order : List (Entry γ) → List (Entry γ))
+    (nmin nmax : Nat) (bounds : Nat → Nat × Nat) (stop : Option (List γ)) (cap : Option Nat)
+    (files : List (Option (List ω))) : Option (Fitted γ) :=
+  match files.foldl (filesStep J nmin nmax) (some []) with
+  | none => none
+  | some voc =>
+    some (hashmapToVocabulary order
+      (filterVocab voc files.length (bounds files.length).1 (bounds files.length).2 stop cap))
+
+/-- one iteration of the loop of `get_term_and_document_frequencies_files` (the decoder result is
+`unwrap`ped: `none` = panic) -/
+def trFilesStep (J : Joiner ω γ) (nmin nmax : Nat) (F : Fitted γ)
+    (st : Option (List (List Nat) × List Nat)) (f : Option (List ω)) : Option (List (List Nat) × List Nat) :=
+  match st, f with
+  | some s, some ws => some (tdStep F s (docGrams J nmin nmax ws))
+  | _, _ => none
+
+/-- `get_term_and_document_frequencies_files` (again its own loop): count matrix and document frequencies -/
+def transformFiles (J : Joiner ω γ) (nmin nmax : Nat) (F : Fitted γ) (files : List (Option (List ω))) :
+    Option (List (List Nat) × List Nat) :=
+  files.foldl (trFilesStep J nmin nmax F) (some ([], List.replicate F.vocabulary.length 0))
+
+end Docs
+
+/-! ## the parameter object and its compiled-regex cache (countgrams/hyperparams.rs) -/
+
+/-- what a document is tokenised with -/
+inductive TokSetting (ρ φ : Type)
+  | regex (r : ρ)
+  | function (f : φ)
+  deriving DecidableEq, Repr
+
+/-- the tokenisation fields of `CountVectorizerValidParams`: `split_regex_expr`, the cache
+`split_regex: RefCell<Option<_>>` of the compiled expression, `tokenizer_function`.  `Clone` copies all
+three (the cache included). -/
+structure TokParams (ρ φ : Type) where
+  expr : ρ
+  cache : Option ρ
+  func : Option φ
+
+namespace TokParams
+variable {ρ φ : Type}
+
+/-- `CountVectorizerParams::tokenizer`: a function is stored next to the expression; a regex replaces the
+expression and clears the function.  The cache is NOT touched. -/
+def tokenizer (p : TokParams ρ φ) : TokSetting ρ φ → TokParams ρ φ
+  | .function f => { p with func := some f }
+  | .regex r => { p with expr := r, func := none }
+
+/-- the effect of `check_ref` (on valid settings) on the object: `split_regex_expr` is compiled into
+the cache on EVERY call, whatever the cache held. -/
+def checkRef (p : TokParams ρ φ) : TokParams ρ φ := { p with cache := some p.expr }
+
+/-- what `fit` / `transform` tokenise with: the function if one is set, else `split_regex()` = the
+content of the cache (`unwrap()`: `none` is a panic). -/
+def used (p : TokParams ρ φ) : Option (TokSetting ρ φ) :=
+  match p.func with
+  | some f => some (.function f)
+  | none => p.cache.map .regex
+
+/-- the tokeniser configured last -/
+def configured (p : TokParams ρ φ) : TokSetting ρ φ :=
+  match p.func with
+  | some f => .function f
+  | none => .regex p.expr
+
+end TokParams
+
+/-! ## exact reading of the relative bounds -/
+
+/-- the exact value of a finite `f32` -/
+def f32ToRat (x : Float32) : Rat :=
+  let b := x.toBits.toNat
+  let e := (b / 2 ^ 23) % 256
+  let m := b % 2 ^ 23
+  let mag : Rat :=
+    if e = 0 then ((m : Nat) : Rat) / ((2 ^ 149 : Nat) : Rat)
+    else (((2 ^ 23 + m) * 2 ^ e : Nat) : Rat) / ((2 ^ 150 : Nat) : Rat)
+  if b / 2 ^ 31 = 1 then -mag else mag
+
+/-- the absolute window in exact arithmetic: `absBoundsWith` (the formula of `filter_vocabulary`) with
+the exact product, the exact ceiling and the exact floor. -/
+def absBoundsExact (lo hi : Rat) (n : Nat) : Nat × Nat :=
+  absBoundsWith (fun k : Nat => (k : Rat)) (fun x => x.ceil.toNat) (fun x => x.floor.toNat) lo hi n
+
+/-! ## finite tables for the two Unicode maps (op `tstring`) -/
+
+/-- NFKD as the one-point table `raw ↦ nf` -/
+def tableNfkd {σ : Type} [DecidableEq σ] (raw nf : σ) : σ → σ := fun s => if s = raw then nf else s
+
+/-- lower-casing as the two-point table `raw ↦ low`, `nf ↦ lownf` -/
+def tableLower {σ : Type} [DecidableEq σ] (raw nf low lownf : σ) : σ → σ :=
+  fun s => if s = raw then low else if s = nf then lownf else s
+
 end LinfaSpec.Vectorizer
